@@ -491,10 +491,12 @@ pub fn main_hist(args: &Args) -> i32 {
     let seed = args.u64("seed", 1);
     let worker = args.u64("worker", 0);
     let workers = args.u64("workers", 1).max(1);
-    let parities: Vec<usize> = match args.str("parity", "both").as_str() {
+    let parities: Vec<usize> = match args.str("parity", "all").as_str() {
         "even" => vec![0],
         "odd" => vec![1],
-        _ => vec![0, 1],
+        "packed" => vec![2],
+        "both" => vec![0, 1],
+        _ => vec![0, 1, 2],
     };
     let mut col = Collector::new(&prop, parities);
     col.strict_all = args.has("strict-all");
